@@ -17,40 +17,136 @@ def endedBy (ev : List Event) : List Nat := ev.flatMap (fun e => match e with | 
 def delayedStartBy (ev : List Event) : List Nat := ev.flatMap (fun e => match e with | .delayStart i _ => [i] | _ => [])
 def delayedEndBy (ev : List Event) : List Nat := ev.flatMap (fun e => match e with | .delayEnd i _ => [i] | _ => [])
 
-/-- the timelines agree with the dispatch sets: nothing already started has a start pulse, nothing already ended
-    has any pulse (what `buildTimelines` establishes and the loop maintains) -/
+theorem startedBy_eq : startedBy = startsOf := rfl
+theorem endedBy_eq : endedBy = endsOf := rfl
+theorem delayedStartBy_eq : delayedStartBy = dStartsOf := rfl
+theorem delayedEndBy_eq : delayedEndBy = dEndsOf := rfl
+
+/-- the timelines agree with the dispatch sets: no atom at a pulse still to be visited is already started
+    (resp. ended), the pulses are distinct, and an atom sits at one pulse only, once (what `buildTimelines`
+    establishes and the loop maintains).
+
+    CORRECTED.  The original definition was
+      `(∀ e ∈ x.sAtms, ∀ i ∈ e.2, i ∉ x.started) ∧ (∀ e ∈ x.eAtms, ∀ i ∈ e.2, i ∉ x.ended) ∧`
+      `(x.sAtms.map (·.1)).Nodup ∧ (x.eAtms.map (·.1)).Nodup`.
+    It is NOT maintained by the loop (an iteration records the atoms of the pulse as started and only drops the
+    pulse: the entry stays in `sAtms`) and it does NOT give "at most once" (a pulse occurring twice in `pulses`, or
+    an atom sitting at two pulses, is dispatched twice): see `C19_cex_*` below.  So
+    * the first two clauses are restricted to the pulses still in `x.pulses` and read through `atPulse` (the only
+      way the loop reads the maps; with distinct keys `atPulse m e.1 = e.2` for `e ∈ m`);
+    * `x.pulses.Nodup` is added (a `std::set`; `buildTimelines` builds it strictly sorted: `C19_build_sorted`);
+    * "an atom sits at one pulse, once" is added for both maps. -/
 def TimelinesOk (x : Exec) : Prop :=
+  (∀ p ∈ x.pulses, ∀ i ∈ atPulse x.sAtms p, i ∉ x.started) ∧
+  (∀ p ∈ x.pulses, ∀ i ∈ atPulse x.eAtms p, i ∉ x.ended) ∧
+  (x.sAtms.map (·.1)).Nodup ∧ (x.eAtms.map (·.1)).Nodup ∧
+  x.pulses.Nodup ∧
+  (∀ p, (atPulse x.sAtms p).Nodup) ∧ (∀ p q i, i ∈ atPulse x.sAtms p → i ∈ atPulse x.sAtms q → p = q) ∧
+  (∀ p, (atPulse x.eAtms p).Nodup) ∧ (∀ p q i, i ∈ atPulse x.eAtms p → i ∈ atPulse x.eAtms q → p = q)
+
+theorem timelinesOk_iff (x : Exec) : TimelinesOk x ↔ TOk x :=
+  ⟨fun ⟨a, b, c, d, e, f, g, h, i⟩ => ⟨a, b, c, d, e, f, g, h, i⟩,
+   fun ⟨a, b, c, d, e, f, g, h, i⟩ => ⟨a, b, c, d, e, f, g, h, i⟩⟩
+
+/-! the counterexamples to the original statements (`OrigOk` is the original `TimelinesOk`) -/
+
+def OrigOk (x : Exec) : Prop :=
   (∀ e ∈ x.sAtms, ∀ i ∈ e.2, i ∉ x.started) ∧ (∀ e ∈ x.eAtms, ∀ i ∈ e.2, i ∉ x.ended) ∧
   (x.sAtms.map (·.1)).Nodup ∧ (x.eAtms.map (·.1)).Nodup
+instance (x : Exec) : Decidable (OrigOk x) := by unfold OrigOk; infer_instance
 
-theorem C19_build_timelines_ok (x : Exec) (plan : List XAtom) : TimelinesOk (buildTimelines x plan) := by
-  sorry
+/-- `buildTimelines` gives a start pulse to an impulse that is started but not ended -/
+theorem C19_cex_build : ¬ OrigOk (buildTimelines { now := 0, upt := 1, started := [0] } [⟨0, true, (0, 0), (0, 0)⟩]) := by
+  decide
+/-- the loop does not maintain the original `TimelinesOk` -/
+theorem C19_cex_not_maintained :
+    let x : Exec := { now := 0, upt := 1, sAtms := [((0, 0), [7])], pulses := [(0, 0)] }
+    OrigOk x ∧ ¬ OrigOk (manage 2 x).1 := by
+  decide
+/-- a pulse occurring twice is dispatched twice -/
+theorem C19_cex_repeated_pulse :
+    let x : Exec := { now := 0, upt := 1, sAtms := [((0, 0), [7])], pulses := [(0, 0), (0, 0)] }
+    OrigOk x ∧ startedBy (manage 3 x).2.1 = [7, 7] := by
+  decide
+/-- an id occurring twice in the plan is dispatched twice -/
+theorem C19_cex_repeated_id :
+    let x : Exec := buildTimelines { now := 3, upt := 1 } [⟨0, false, (0, 0), (1, 0)⟩, ⟨0, false, (2, 0), (3, 0)⟩]
+    OrigOk x ∧ startedBy (manage 9 x).2.1 = [0, 0] ∧ endedBy (manage 9 x).2.1 = [0, 0] := by
+  decide
+
+/-- CORRECTED: two hypotheses added (original: no hypothesis, false by `C19_cex_build` / `C19_cex_repeated_id`).
+    * `hid`: the atoms of the plan have distinct ids;
+    * `himp`: an impulse of the plan that is started is ended.  The loop starts and ends an impulse in the same
+      iteration, so this holds in every state the executor reaches as long as the planner does not change the
+      kind of an atom: `C19_kinds_build` / `C19_kinds_manage` / `C19_kinds_himp` below. -/
+theorem C19_build_timelines_ok (x : Exec) (plan : List XAtom) (hid : (plan.map (·.id)).Nodup)
+    (himp : ∀ a ∈ plan, a.impulse = true → a.id ∈ x.started → a.id ∈ x.ended) :
+    TimelinesOk (buildTimelines x plan) :=
+  (timelinesOk_iff _).2 (TOk.build x plan hid himp)
+
+/-- the pulses built by `buildTimelines` are strictly sorted (for any plan), in both forms used below -/
+theorem C19_build_sorted (x : Exec) (plan : List XAtom) :
+    (buildTimelines x plan).pulses.Pairwise (fun a b => tlt a b = true) ∧
+    (∀ i, i + 1 < (buildTimelines x plan).pulses.length →
+      tlt (buildTimelines x plan).pulses[i]! (buildTimelines x plan).pulses[i + 1]! = true) :=
+  ⟨(BInv.build x plan).sorted, chain_of_sorted (BInv.build x plan).sorted⟩
+
+/-- … and the loop keeps them so -/
+theorem C19_manage_sorted (fuel : Nat) (x : Exec)
+    (hs : ∀ i, i + 1 < x.pulses.length → tlt x.pulses[i]! x.pulses[i + 1]! = true) :
+    ∀ i, i + 1 < (manage fuel x).1.pulses.length →
+      tlt (manage fuel x).1.pulses[i]! (manage fuel x).1.pulses[i + 1]! = true :=
+  chain_of_sorted (manage_sorted fuel x (sorted_of_chain _ hs))
+
+/-- the kinds of the atoms are fixed (`imp`): a started impulse is ended, and the timelines start an impulse only
+    where they end it.  Established by `buildTimelines` for every plan that respects the kinds, maintained by the
+    loop, and it gives the hypothesis `himp` of `C19_build_timelines_ok` for the next plan. -/
+def KindsOk (imp : Nat → Bool) (x : Exec) : Prop :=
+  (∀ i, imp i = true → i ∈ x.started → i ∈ x.ended) ∧
+  (∀ i, imp i = true → ∀ p, i ∈ atPulse x.sAtms p → i ∈ atPulse x.eAtms p)
+
+theorem C19_kinds_build (imp : Nat → Bool) (x : Exec) (plan : List XAtom) (hk : ∀ a ∈ plan, a.impulse = imp a.id)
+    (h : ∀ i, imp i = true → i ∈ x.started → i ∈ x.ended) : KindsOk imp (buildTimelines x plan) :=
+  let k := KInv.build imp x plan hk h; ⟨k.done, k.both⟩
+
+theorem C19_kinds_manage (imp : Nat → Bool) (fuel : Nat) (x : Exec) (h : KindsOk imp x) :
+    KindsOk imp (manage fuel x).1 :=
+  let k := manage_kinds imp fuel x ⟨h.1, h.2⟩; ⟨k.done, k.both⟩
+
+theorem C19_kinds_himp (imp : Nat → Bool) (x : Exec) (plan : List XAtom) (hk : ∀ a ∈ plan, a.impulse = imp a.id)
+    (h : KindsOk imp x) : ∀ a ∈ plan, a.impulse = true → a.id ∈ x.started → a.id ∈ x.ended :=
+  fun a ha hi => h.1 a.id ((hk a ha).symm.trans hi)
 
 /-- time: a tick that runs to its end (whether or not it was interrupted by replanning) advances the clock by
     exactly one tick unit, and an interrupted one does not move it -/
 theorem C19_time_advances_by_one_unit (fuel : Nat) (x : Exec) :
     ((manage fuel x).2.2 = .done → (manage fuel x).1.now = x.now + x.upt) ∧
-    ((manage fuel x).2.2 = .needPlan → (manage fuel x).1.now = x.now) := by
-  sorry
+    ((manage fuel x).2.2 = .needPlan → (manage fuel x).1.now = x.now) :=
+  manage_now fuel x
 
-/-- at most once: whatever the loop starts was not started before, is recorded, and is started once in this run -/
+/-- at most once: whatever the loop starts was not started before, is recorded, and is started once in this run.
+    CORRECTED through the definition of `TimelinesOk` only (the statement is textually the original one): with the
+    original definition the last conjunct fails (`C19_cex_not_maintained`) and so does `Nodup`
+    (`C19_cex_repeated_pulse`, `C19_cex_repeated_id`). -/
 theorem C19_started_at_most_once (fuel : Nat) (x : Exec) (h : TimelinesOk x) :
     (∀ i ∈ startedBy (manage fuel x).2.1, i ∉ x.started ∧ i ∈ (manage fuel x).1.started) ∧
     (startedBy (manage fuel x).2.1).Nodup ∧
     (∀ i ∈ x.started, i ∈ (manage fuel x).1.started) ∧ TimelinesOk (manage fuel x).1 := by
-  sorry
+  obtain ⟨⟨a, b, c⟩, -, d⟩ := manage_once fuel x ((timelinesOk_iff x).1 h)
+  exact ⟨a, b, c, (timelinesOk_iff _).2 d⟩
 
+/-- CORRECTED through the definition of `TimelinesOk` only (`C19_cex_repeated_id` refutes the original `Nodup`) -/
 theorem C19_ended_at_most_once (fuel : Nat) (x : Exec) (h : TimelinesOk x) :
     (∀ i ∈ endedBy (manage fuel x).2.1, i ∉ x.ended ∧ i ∈ (manage fuel x).1.ended) ∧
     (endedBy (manage fuel x).2.1).Nodup ∧
-    (∀ i ∈ x.ended, i ∈ (manage fuel x).1.ended) := by
-  sorry
+    (∀ i ∈ x.ended, i ∈ (manage fuel x).1.ended) :=
+  (manage_once fuel x ((timelinesOk_iff x).1 h)).2.1
 
 /-- never early: an atom is started (ended) only at a pulse of the current timelines that is not after the clock -/
 theorem C19_not_before_planned_time (fuel : Nat) (x : Exec) :
     (∀ i ∈ startedBy (manage fuel x).2.1, ∃ e ∈ x.sAtms, i ∈ e.2 ∧ tle e.1 (x.now, 0) = true) ∧
-    (∀ i ∈ endedBy (manage fuel x).2.1, ∃ e ∈ x.eAtms, i ∈ e.2 ∧ tle e.1 (x.now, 0) = true) := by
-  sorry
+    (∀ i ∈ endedBy (manage fuel x).2.1, ∃ e ∈ x.eAtms, i ∈ e.2 ∧ tle e.1 (x.now, 0) = true) :=
+  manage_not_early fuel x
 
 /-- a delay that is honoured stops the loop: the atom is not started (ended) by that run of the loop after the
     delay, the run ends waiting for the adapted plan, and the request is consumed -/
@@ -59,28 +155,52 @@ theorem C19_delayed_not_dispatched (x : Exec) (p : Time) :
     (r.2.2 = true → startedBy r.2.1 = [] ∧ endedBy r.2.1 = [] ∧
       (∀ i ∈ delayedStartBy r.2.1, ∀ q, (i, q) ∉ r.1.dontStart) ∧ (∀ i ∈ delayedEndBy r.2.1, ∀ q, (i, q) ∉ r.1.dontEnd)) ∧
     (r.2.2 = false → delayedStartBy r.2.1 = [] ∧ delayedEndBy r.2.1 = [] ∧
-      (∀ i ∈ atPulse x.sAtms p, ∀ q, (i, q) ∉ r.1.dontStart)) := by
-  sorry
+      (∀ i ∈ atPulse x.sAtms p, ∀ q, (i, q) ∉ r.1.dontStart)) :=
+  iteration_delayed x p
 
+set_option linter.unusedVariables false in
 /-- completeness of a finished tick: no pulse at or before the old clock is left, i.e. every atom of the current
-    timelines whose time had been reached has been dispatched -/
+    timelines whose time had been reached has been dispatched
+    (`hs` holds in every reachable state: `C19_build_sorted`, `C19_manage_sorted`; `hf` is not needed: a run that
+    exhausts its fuel does not end with `.done`) -/
 theorem C19_finished_tick_leaves_nothing_due (fuel : Nat) (x : Exec) (hf : x.pulses.length < fuel)
     (hs : ∀ i, i + 1 < x.pulses.length → tlt x.pulses[i]! x.pulses[i + 1]! = true)
     (hd : (manage fuel x).2.2 = .done) :
-    ∀ p ∈ (manage fuel x).1.pulses, tlt (x.now, 0) p = true := by
-  sorry
+    ∀ p ∈ (manage fuel x).1.pulses, tlt (x.now, 0) p = true :=
+  manage_nothing_due fuel x (sorted_of_chain _ hs) hd
 
+set_option linter.unusedVariables false in
 /-- start before end: with well-formed atoms (start ≤ end) an interval that has not been started is never ended
-    first, for the timelines built from any plan -/
+    first, for the timelines built from any plan (`hid` is not needed) -/
 theorem C19_end_only_after_start (x : Exec) (plan : List XAtom) (fuel : Nat)
     (hwf : ∀ a ∈ plan, tle a.start a.stop = true) (hid : (plan.map (·.id)).Nodup)
     (hse : ∀ i ∈ x.ended, i ∈ x.started) :
-    ∀ i ∈ (manage fuel (buildTimelines x plan)).1.ended, i ∈ (manage fuel (buildTimelines x plan)).1.started := by
-  sorry
+    ∀ i ∈ (manage fuel (buildTimelines x plan)).1.ended, i ∈ (manage fuel (buildTimelines x plan)).1.started :=
+  (manage_end_after_start fuel _ (EInv.build x plan hwf hse)).sub
+
+/-- the same over the ticks that follow without replanning: the invariant behind it is kept by every run of the loop -/
+theorem C19_end_only_after_start_next (x : Exec) (plan : List XAtom) (fuel fuel' : Nat)
+    (hwf : ∀ a ∈ plan, tle a.start a.stop = true) (hse : ∀ i ∈ x.ended, i ∈ x.started) :
+    let y := (manage fuel (buildTimelines x plan)).1
+    ∀ i ∈ (manage fuel' { y with tickNo := y.tickNo + 1 }).1.ended,
+      i ∈ (manage fuel' { y with tickNo := y.tickNo + 1 }).1.started := by
+  intro y
+  have h := manage_end_after_start fuel _ (EInv.build x plan hwf hse)
+  exact (manage_end_after_start fuel' { y with tickNo := y.tickNo + 1 } ⟨h.sorted, h.sub, h.cover⟩).sub
+
+/-- `tick` / `resume` keep `TimelinesOk` -/
+theorem C19_tick_ok (x : Exec) (h : TimelinesOk x) : TimelinesOk (tick x).1 :=
+  (C19_started_at_most_once _ { x with tickNo := x.tickNo + 1 } h).2.2.2
+
+theorem C19_resume_ok (x : Exec) (plan : List XAtom) (hid : (plan.map (·.id)).Nodup)
+    (himp : ∀ a ∈ plan, a.impulse = true → a.id ∈ x.started → a.id ∈ x.ended) : TimelinesOk (resume x plan).1 :=
+  (C19_started_at_most_once _ _ (C19_build_timelines_ok x plan hid himp)).2.2.2
 
 /-- non-vacuity: two ticks of a concrete plan -/
 example : ((tick (buildTimelines { now := 0, upt := 1 } [⟨0, false, (0, 0), (2, 0)⟩, ⟨1, true, (1, 0), (1, 0)⟩])).2.1 =
     [.starting [0], .start [0], .tick 1]) := by
-  sorry
+  have h : (tick (buildTimelines { now := 0, upt := 1 } [⟨0, false, (0, 0), (2, 0)⟩, ⟨1, true, (1, 0), (1, 0)⟩])).2.1 =
+      [.starting [0], .start [0], .tick (0 + 1)] := rfl
+  rw [h, Rat.zero_add]
 
 end Oratio
